@@ -1,7 +1,7 @@
 \* exhaustive (thorough): every setBlockMesh of every H = 5 assembly (all fuel layouts, three flags), two profiles
 CONSTANTS H = 5  SrcPts = {1, 2, 3, 4}  DstPts = {1, 2, 3, 4}  Profiles = {2, 3}  FuelChoices = {0, 1, 2, 3, 5, 7, 9, 11}  SolveProfiles = {}
           Jitters = {"none"}  Ops = {"MakeUniform", "Snap"}  SnapFlags = {"true", "false", "auto"}
-          SnapProfiles = {2, 3}  MaxLevel = 5
+          SnapProfiles = {2, 3}  MoveProfiles = {}  Geoms = {"cold"}  MaxLevel = 5
 INIT Init
 NEXT Next
 CONSTRAINT Bound
